@@ -818,8 +818,9 @@ func dumpTree(d map[string]any) string {
 // caller's model was in fact written to) the failures get the finding's two stable keys: a value found in a rendering,
 // and the mutation itself.  With interpolation on (seed C20-9) the keys stay the unlisted `leak:…` / `mutated:caller-model`.
 const (
-	keyInPlaceLeak    = "leak:preparsed-in-place:skip-interpolation"
-	keyInPlaceMutated = "input-mutated:preparsed:skip-interpolation"
+	keyInPlaceLeak        = "leak:preparsed-in-place:skip-interpolation"
+	keyInPlaceMutated     = "input-mutated:preparsed:skip-interpolation"
+	keyInPlaceUnavailable = "secret-value-unavailable:preparsed-in-place:skip-interpolation"
 )
 
 func inPlaceKeys(a *leakArgs, fails []leakFail) []leakFail {
@@ -832,6 +833,9 @@ func inPlaceKeys(a *leakArgs, fails []leakFail) []leakFail {
 		switch {
 		case f.Key == "mutated:caller-model":
 			f.Key = keyInPlaceMutated
+		case f.Key == "secret-value-unavailable":
+			// two secrets defined by one map: the decoder hook of the first consumes the carrier of both
+			f.Key = keyInPlaceUnavailable
 		case strings.HasPrefix(f.Key, "leak:"):
 			f.What = f.Key + ": " + f.What
 			f.Key = keyInPlaceLeak
